@@ -220,7 +220,7 @@ class Grp:
 # ---------------------------------------------------------------------------------------------------------------
 # memory <-> abstract values
 # ---------------------------------------------------------------------------------------------------------------
-SIZES = {"G1": 144, "G2": 288, "G1A": 104, "G2A": 200, "GT": 576, "SC": 32, "PX": 32}
+SIZES = {"G1": 144, "G2": 288, "G1A": 112, "G2A": 208, "GT": 576, "SC": 32, "PX": 32}
 GROUP_OF = {"G1": "G1", "G1A": "G1", "G2": "G2", "G2A": "G2", "GT": "GT"}
 
 FQ_ONE_MONT = 0x15f65ec3fa80e4935c071a97a256ec6d77ce5853705257455f48985753c758baebf4000bc40c0002760900000002fffd
@@ -235,7 +235,7 @@ class GrpMem:
         size = SIZES[kind]
         if not isinstance(p, Ptr) or p.obj is None:
             raise ExecError("unsupported", "group operand %r" % (p,))
-        self.I._check_access(p, size if kind not in ("G1A", "G2A") else size - 7, 1, False)
+        self.I._check_access(p, size if kind not in ("G1A", "G2A") else size - 15, 1, False)
         if not is_conc(p.off):
             raise ExecError("unsupported", "group operand at symbolic offset")
         o = p.obj
@@ -270,15 +270,15 @@ class GrpMem:
 
     def write(self, p, kind, v):
         size = SIZES[kind]
-        self.I._check_access(p, size if kind not in ("G1A", "G2A") else size - 7, 1, True)
+        self.I._check_access(p, size if kind not in ("G1A", "G2A") else size - 15, 1, True)
         if not is_conc(p.off):
             raise ExecError("unsupported", "group result at symbolic offset")
-        self.I.store_cell(p.obj, p.off, size if kind not in ("G1A", "G2A") else size - 7, v)
+        self.I.store_cell(p.obj, p.off, size if kind not in ("G1A", "G2A") else size - 15, v)
 
     def new(self, name, kind, v=None):
         o = Obj(name, SIZES[kind], "arg", 16)
         if v is not None:
-            o.cells[0] = (SIZES[kind] if kind not in ("G1A", "G2A") else SIZES[kind] - 7, v)
+            o.cells[0] = (SIZES[kind] if kind not in ("G1A", "G2A") else SIZES[kind] - 15, v)
         return o
 
 
